@@ -167,6 +167,11 @@ class AckHarness(Harness):
 
             base = {"to_exec": nc, "to_ctrl": ne, "F": F, "S": S}
             out += [{**base, "_prefix": p} for p in split_prefixes(self.body, base, 6 if tier == "quick" else 24)]
+            if nc >= 1 and ne >= 1:
+                # the publication reports the completion of transfer number i: a counter that is independent of the
+                # acknowledged-send counter and takes the same values
+                base = {**base, "tidx": True}
+                out += [{**base, "_prefix": p} for p in split_prefixes(self.body, base, 6 if tier == "quick" else 24)]
         return out
 
     def budget(self, tier):
@@ -190,7 +195,7 @@ class AckHarness(Harness):
             br.shutdown = lambda: shutdowns.append(1)
             fakezmq.NET.fault = net
             sent_c2e = [TaskSequence(worker=W0, tasks=[f"t{i}"], publish=set()) for i in range(params["to_exec"])]
-            sent_e2c = [DatasetPublished(origin=W0, ds=DatasetId(f"d{i}", "0"), transmit_idx=None) for i in range(params["to_ctrl"])]
+            sent_e2c = [DatasetPublished(origin=W0, ds=DatasetId(f"d{i}", "0"), transmit_idx=(i if params.get("tidx") else None)) for i in range(params["to_ctrl"])]
             got_ctrl, raised = [], []
 
             def step_ctrl():
@@ -404,6 +409,76 @@ class RetryBudget(Harness):
                 raise Violation("not-due-record-touched")
 
 
+class RetryWhenBusy(Harness):
+    """One iteration of each endpoint's receive loop with a due in-flight record and a non-empty inbox: the record is
+    retransmitted in that very iteration -- inbound traffic must not starve the retry timer."""
+
+    name = "retry-when-busy"
+    engine = "E1-crosshair"
+    properties = ("C06",)
+    rule = "one path = (endpoint, what the inbox holds, ordering class of symbolic record time and clock); non-trivial = the inbox is not empty and the record is due"
+    assumptions = ["integers unbounded", "one loop iteration = one recv_messages batch"]
+    outside = []
+    INBOX = ["empty", "stale-ack", "local-publication", "ack+publication"]
+
+    def shards(self, tier):
+        return [{"who": w, "inbox": i} for w in ("executor", "controller") for i in range(len(self.INBOX))]
+
+    def budget(self, tier):
+        return 60.0
+
+    def bounds(self, tier):
+        return {"inbox": self.INBOX, "record time": "any integer up to the (concrete) clock"}
+
+    def functions(self):
+        return [executor_mod.Executor.recv_loop, bridge_mod.Bridge.recv_events, comms.ReliableSender.maybe_retry]
+
+    def body(self, ch, params):
+        fakezmq.NET.reset()
+        now = 10**12 + 5 * 10**9  # concrete: the heartbeat watchers do float arithmetic on the clock
+        at = ch.int("at", 0, now)
+        CLOCK.now = 10**12
+        inbox = self.INBOX[params["inbox"]]
+        if params["who"] == "executor":
+            ep = make_executor()
+            me, peer, host = EXEC, CTRL, "controller"
+        else:
+            ep = make_bridge()
+            ep.shutdown = lambda: None
+            ep.mlistener.calls = 0
+            me, peer, host = CTRL, EXEC, "h0"
+        frames = []
+        if inbox in ("stale-ack", "ack+publication"):
+            frames.append([serde.ser_message(Ack(idx=77))])
+        if inbox in ("local-publication", "ack+publication"):
+            frames.append([serde.ser_message(DatasetPublished(origin=W0, ds=DatasetId("d", "0"), transmit_idx=None))])
+        for f in frames:
+            fakezmq.NET.q(me).append(f)
+        CLOCK.now = now
+        for w in ([ep.heartbeat_watcher] if params["who"] == "executor" else list(ep.heartbeat_checker.values())):
+            w.step()
+        ep.sender.inflight[5] = comms._InFlightRecord(host=host, message=(serde.ser_message(Syn(5, me)), serde.ser_message(DatasetPurge(ds=DatasetId("z", "0")))), clazz="X", at=at, remaining=3)
+        before = len(fakezmq.NET.q(peer))
+        ep.mlistener.calls = 0
+        try:
+            if params["who"] == "executor":
+                ep.recv_loop()
+            else:
+                ep.recv_events()
+        except StopStep:
+            pass
+        due = bool(at < now - ep.sender.resend_grace)
+        rec = ep.sender.inflight.get(5)
+        resent = [f for f in list(fakezmq.NET.q(peer))[before:] if len(f) == 2 and f[0] == serde.ser_message(Syn(5, me))]
+        ch.note("nontrivial", due and inbox != "empty")
+        ch.note("fingerprint", (params["who"], inbox, due))
+        if due and (rec is None or not resent or not (rec.remaining == 2)):
+            raise Violation("due-record-not-resent-while-busy", f"{params['who']} with inbox {inbox}: the overdue message was not retransmitted in this iteration")
+        if not due and (resent or rec is None or not (rec.remaining == 3)):
+            raise Violation("not-due-record-touched", f"{params['who']} with inbox {inbox}")
+
+
 register(AckHarness())
+register(RetryWhenBusy())
 register(Framing())
 register(RetryBudget())
